@@ -250,4 +250,7 @@ def nodeInfoGen (w : List (String × NISrc)) (s : ArgSite) : NodeInfo :=
   ⟨niStr s (niLookup w "arg_name"), niTree s (niLookup w "path"), niStr s (niLookup w "task_name"),
    niPath s (niLookup w "task_path")⟩
 
+/-- the `NodeInfo` of the merged node for a container of unhashed values, as wired in the source (`none`: it gets none) -/
+def mergedNodeInfoGen (s : ArgSite) : Option NodeInfo := mergedNodeInfo.map fun w => nodeInfoGen w s
+
 end Pytask.Hash.Gen
